@@ -74,6 +74,24 @@ def run(r):
     r.cov["ambient_sources"] = {"total": len(asites), "by_kind": {}, "status": {s["id"]: s.get("status") for s in aexp["sites"]}}
     for s in asites:
         r.cov["ambient_sources"]["by_kind"][s.get("kind")] = r.cov["ambient_sources"]["by_kind"].get(s.get("kind"), 0) + 1
+    # the insertion-ordered containers themselves: real stablemap.Map / MultiMap / set.Set / stack / array against the pointer-level
+    # Lean model that is proved to refine insertion-ordered lists for ALL operation sequences and every Go-map iteration order
+    # (Lox.Props.C13.stablemap_refines, foreach_order_independent_of_go_map, set_refines, multimap_refines)
+    cres = r.run_family("containers", n=300 if r.tier == "quick" else 6000)
+    chits = c12.read_oracle(cres)          # oracle.txt: insertion-order reference (slices) vs implementation
+    cmm = cres["mismatches"]               # pointer-level Lean model vs implementation
+    r.obligations.append(("containers: stablemap.Map / MultiMap / set.Set / stack / array = pointer-level model "
+                          "(proved to refine insertion-ordered lists for all operation sequences)", not cmm and not chits,
+                          "%d mismatches, %d oracle hits of %d" % (len(cmm), len(chits), len(cres["cases"]))))
+    for (i, c, o) in chits[:3]:
+        r.violation("containers-%d" % i, {"kind": "property-violated-by-implementation", "what": o, "case": c,
+                    "implementation": cres["impl"][i], "family": "containers",
+                    "note": "an insertion-ordered container of internal/base no longer iterates in insertion order / no longer behaves like the list it stands for; "
+                            "every automaton and table the generator emits is numbered through these containers"}, True)
+    if cmm and not chits:
+        i, c, im, mo = cmm[0]
+        r.violation("containers-tie", {"kind": "correspondence-broken", "first": {"case": c, "implementation": im, "model": mo},
+                                       "names": "Lox.Props.C13.stablemap_refines / set_refines / multimap_refines speak about lean/Lox/Dec/Containers.lean"}, False)
     n = 4 if r.tier == "quick" else 80
     res, hits = dynamic(r, n)
     if adiff and not hits:
